@@ -32,7 +32,7 @@ func buildScenarios(c *core.Ctx) []func() *Scenario {
 		sd := c.SubSeed("scenario", i)
 		out = append(out, func() *Scenario { return mk(i, sd) })
 	}
-	rep := c.N(5, 70)
+	rep := c.N(5, 60)
 	// directed: first line of a stream held in flight at the kill
 	for k := 0; k < c.N(3, 20); k++ {
 		for v := 0; v < 4; v++ {
@@ -50,11 +50,11 @@ func buildScenarios(c *core.Ctx) []func() *Scenario {
 		}
 	}
 	// SIGKILL from outside after a drawn delay
-	for k := 0; k < c.N(48, 600); k++ {
+	for k := 0; k < c.N(48, 500); k++ {
 		add(func(i int, sd int64) *Scenario { return genKill(i, sd, "", "", th) })
 	}
 	// directed: busy writer + write notifications, kill when the offsets file holds a non-line-end offset
-	for k := 0; k < c.N(6, 60); k++ {
+	for k := 0; k < c.N(3, 45); k++ {
 		pm := []string{"sync", "async", "sync"}[k%3]
 		add(func(i int, sd int64) *Scenario { return genBusy(i, sd, pm, th) })
 	}
@@ -67,7 +67,7 @@ func buildScenarios(c *core.Ctx) []func() *Scenario {
 	if th {
 		tails = append(tails, "garbage")
 	}
-	for k := 0; k < c.N(3, 36); k++ {
+	for k := 0; k < c.N(3, 24); k++ {
 		for _, watch := range []bool{false, true} {
 			for _, mode := range []string{"idle", "inflight1"} {
 				for _, tail := range tails {
